@@ -21,8 +21,8 @@ m = {
          'serves_properties': sorted(claims.VERUS), 'kind_free_text': 'Verus 0.2026.09.13 on function bodies cut mechanically from /repo on every run (rules X-*), against relational contracts; lemma layer (Inv, preservation, theorems) in the same file'},
         {'name': 'kani-in-place', 'path': 'lib/kani_run.py + kani/*_verif.rs',
          'serves_properties': sorted(claims.KANI), 'kind_free_text': 'Kani 0.68 / CBMC 6.11 on the real crate (scratch copy + cfg(kani) child modules): loop-free harnesses over fully symbolic footprints = complete proofs; bounded rows labelled as such'},
-        {'name': 'inventory', 'path': 'lib/inventory.py', 'serves_properties': ['C03', 'C04', 'C08', 'C20'],
-         'kind_free_text': 'structural facts recomputed from the source (call sites of reclamation / collection entry points, phase assignments, statics)'},
+        {'name': 'inventory', 'path': 'lib/inventory.py', 'serves_properties': ['C03', 'C04', 'C08', 'C19', 'C20'],
+         'kind_free_text': 'structural facts recomputed from the source (call sites of reclamation / collection entry points, phase assignments, statics, ZstCache signatures)'},
     ],
     'checks': [],
     'notes': claims.NOTES,
